@@ -18,21 +18,27 @@ IntegAlgs == { [num |-> 1, alg |-> "sha1", len |-> 12], [num |-> 2, alg |-> "md5
 \* Role byte of RAKP 1 (13.20): bit 4 = name-only lookup, low nibble = requested privilege
 RoleByte(S) == S.priv + (IF S.lookup THEN 0 ELSE 16)
 UserBlock(S) == B(<< RoleByte(S), Len(S.uname) >> \o S.uname)
+\* the BMC hashes the role, name length and name it received in RAKP Message 1 (13.20: payload bytes 25, 28 and 29..),
+\* which for a correct console is UserBlock(S)
+UserBlockM == Var("ublockM")
 Kuid(S)  == B(S.pw)
 KgEff(S) == IF S.kg = <<>> THEN B(S.pw) ELSE B(S.kg)
 AlgPayload(kind, alg) == <<kind, 0, 0, 8, alg, 0, 0, 0>>
 \* 13.18 Open Session Response (status OK)
+\* (byte 3: the privilege level the BMC allows the session; a BMC asked for "highest" (0) may answer with the level that
+\* resolves to - scenario field `grant`; the role byte of RAKP 1 and every hash still carry what the console requested)
+Granted(S) == IF "grant" \in DOMAIN S THEN S.grant ELSE S.priv
 OpenSessionRspT(S) ==
-  Cat(<< Var("tag1"), B(<<0, S.priv, 0>>), Var("sidM"), B(S.bmcSid),
+  Cat(<< Var("tag1"), B(<<0, Granted(S), 0>>), Var("sidM"), B(S.bmcSid),
          B(AlgPayload(0, S.authNum) \o AlgPayload(1, S.integNum) \o AlgPayload(2, S.confNum)) >>)
 \* 13.21 RAKP 2 AuthCode = HMAC_Kuid(SIDm, SIDc, Rm, Rc, GUIDc, Rolem, ULengthm, UNamem)
 Rakp2Auth(S) == Hmac(S.authAlg, Kuid(S),
-                     Cat(<< Var("sidM"), B(S.bmcSid), Var("Rm"), B(S.rc), B(S.guid), UserBlock(S) >>))
+                     Cat(<< Var("sidM"), B(S.bmcSid), Var("Rm"), B(S.rc), B(S.guid), UserBlockM >>))
 Rakp2T(S) == Cat(<< Var("tag2"), B(<<0, 0, 0>>), Var("sidM"), B(S.rc), B(S.guid), Rakp2Auth(S) >>)
 \* 13.22 RAKP 3 AuthCode = HMAC_Kuid(Rc, SIDm, Rolem, ULengthm, UNamem)
-Rakp3Auth(S) == Hmac(S.authAlg, Kuid(S), Cat(<< B(S.rc), Var("sidM"), UserBlock(S) >>))
+Rakp3Auth(S) == Hmac(S.authAlg, Kuid(S), Cat(<< B(S.rc), Var("sidM"), UserBlockM >>))
 \* 13.31 SIK = HMAC_Kg(Rm, Rc, Rolem, ULengthm, UNamem)
-SIK(S) == Hmac(S.authAlg, KgEff(S), Cat(<< Var("Rm"), B(S.rc), UserBlock(S) >>))
+SIK(S) == Hmac(S.authAlg, KgEff(S), Cat(<< Var("Rm"), B(S.rc), UserBlockM >>))
 \* 13.23 RAKP 4 ICV = HMAC_SIK(Rm, SIDc, GUIDc), truncated per algorithm
 Rakp4Icv(S) == Trunc(Hmac(S.authAlg, SIK(S), Cat(<< Var("Rm"), B(S.bmcSid), B(S.guid) >>)), S.icvLen)
 Rakp4T(S) == Cat(<< Var("tag3"), B(<<0, 0, 0>>), Var("sidM"), Rakp4Icv(S) >>)
@@ -44,6 +50,7 @@ K2(S) == Slice(Kn(S, 2), 0, 16)              \* AES-128 key = first 16 bytes of 
 \* offsets of the holes in the library's requests: RMCP 4 + null wrapper 12 => payload at 16
 OsrTag == Slice(Req, 16, 17)   ConsoleSid == Slice(Req, 20, 24)
 R1Tag  == Slice(Req, 16, 17)   RmObs      == Slice(Req, 24, 40)
+UserBlockObs == Cat(<< Slice(Req, 40, 41), Slice(Req, 43, -1) >>)
 R3Tag  == Slice(Req, 16, 17)   R3AuthObs  == Slice(Req, 24, -1)
 
 \* 13.6/13.28/13.29 in-session packet from the BMC to the console
@@ -99,7 +106,7 @@ CallNewV2Session(S) ==
                                    ConfidentialityAlgorithm |-> S.confNum] >>]]
 HonestOsr(S)   == [React0 EXCEPT !.captures = << Cap("tag1", OsrTag), Cap("sidM", ConsoleSid) >>,
                                  !.datagrams = << Dg(NullWrapper(17, OpenSessionRspT(S)), [kind |-> "osr"]) >>]
-HonestRakp2(S) == [React0 EXCEPT !.captures = << Cap("tag2", R1Tag), Cap("Rm", RmObs) >>,
+HonestRakp2(S) == [React0 EXCEPT !.captures = << Cap("tag2", R1Tag), Cap("Rm", RmObs), Cap("ublockM", UserBlockObs) >>,
                                  !.datagrams = << Dg(NullWrapper(19, Rakp2T(S)), [kind |-> "rakp2"]) >>]
 HonestRakp4(S) == [React0 EXCEPT !.captures = << Cap("tag3", R3Tag) >>,
                                  !.checks = << [name |-> "rakp3auth", t |-> Eq(R3AuthObs, Rakp3Auth(S))] >>,
